@@ -637,6 +637,8 @@ def compare_counts(a: Optional[sp.Expr], b: Optional[sp.Expr]) -> Tuple[str, str
     d = sp.simplify(a - b)
     if d == 0:
         return "EQ", f"{a}"
+    if d.is_number:
+        return "NE", f"counts differ by the constant {d}: {a} vs {b}"
     # a definite mismatch: both counts are closed forms over the same symbols and differ, or one is a
     # Min(...) of the other with an independent quantity (can be strictly smaller)
     fa, fb = a.free_symbols, b.free_symbols
